@@ -35,7 +35,8 @@ def cases(rng, tier):
         for f in ("sum", "np.sum", "mean", "counts", "column"):
             if tier == "quick" and rng.random() < 0.4:
                 continue
-            p = {"lens": lens, "f": f, "dtype": rng.choice(gens.DTYPES), "vseed": rng.randint(0, 9999), "mode": rng.choice(["small", "small", "big", "rare"])}
+            p = {"lens": lens, "f": f, "dtype": rng.choice(gens.DTYPES), "vseed": rng.randint(0, 9999), "mode": rng.choice(["small", "small", "big", "rare", "cancel"]),
+                 "derived": rng.choice(gens.DERIVATIONS)}
             if f == "column":
                 p["j"] = rng.randint(0, max(lens))
             out.append(p)
@@ -43,7 +44,7 @@ def cases(rng, tier):
 
 
 def key(p):
-    return engine.stable_hash([p["lens"], p["f"], p["dtype"], p.get("j"), p["mode"]])
+    return engine.stable_hash([p["lens"], p["f"], p["dtype"], p.get("j"), p["mode"], p.get("derived")])
 
 
 def nontrivial(p):
@@ -66,6 +67,8 @@ def _vals(p):
     if p["mode"] == "rare" and dt.kind == "f":
         # NaN / infinities / signed zeros among ordinary values (column sums and means must propagate them as numpy does)
         return np.array([rnd.choice([float("nan"), float("inf"), float("-inf"), -0.0, 1.5, 2.5, 4.0, 7.0]) for _ in range(n)], dtype=dt)
+    if p["mode"] == "cancel":
+        return gens.cell_values(p["dtype"], n, rnd, mode="cancel")
     return gens.cell_values(p["dtype"], n, rnd, mode="small")
 
 
@@ -81,7 +84,7 @@ def run_impl(p):
     from npstructures import RaggedArray
     def g():
         vals, _ = _rows(p)
-        ra = RaggedArray(vals.copy(), list(p["lens"]))
+        ra = gens.derive_ra(RaggedArray(vals.copy(), list(p["lens"])), p.get("derived"))
         f = p["f"]
         with np.errstate(all="ignore"), warnings.catch_warnings():
             warnings.simplefilter("ignore")
@@ -99,7 +102,7 @@ def run_impl(p):
         # (fill / a cell through the flat view / an item assignment) the function must see the new cells
         from npstructures import RaggedArray
         vals, _ = _rows(p)
-        ra = RaggedArray(vals.copy(), list(p["lens"]))
+        ra = gens.derive_ra(RaggedArray(vals.copy(), list(p["lens"])), p.get("derived"))
         first = _call(p, ra)
         unchanged = bool([int(l) for l in ra.lengths] == list(p["lens"]) and np.array_equal(np.asarray(ra.ravel()).view(np.uint8), vals.view(np.uint8))
                          and [len(r) for r in ra.tolist()] == list(p["lens"]))
